@@ -68,6 +68,21 @@ Definition select (rules : list rule) (ops : cmpop * cmpop) (comps : list compon
   let matches := filter (fun l => sig_match comps spec (l_sig l)) cands in
   apply_rules rules cands matches.
 
+(* ---- the selection as it runs on a FILE: the candidate table is given in the coordinates of the file (line
+   numbers as the interpreter counts them, the same coordinates as the definition line d = co_firstlineno);
+   the implementation computes it from the tree of the normalised text, in which every line number is smaller
+   by the number of leading whitespace-only lines the normalisation dropped (`lead` = number of newline
+   characters in the leading whitespace run of the file text). *)
+Definition line_shift (n : text_norm) (lead : nat) : nat :=
+  match n with NormLStrip | NormStrip => lead | NormNone | NormRStrip => 0 end.
+Definition shift_lam (k : nat) (l : lam) : lam := mklam (l_id l) (l_min l - k) (l_max l - k) (l_sig l).
+Definition shift_node (k : nat) (n : node) : node := (fst n - k, map (shift_lam k) (snd n)).
+Definition select_in_file (rules : list rule) (ops : cmpop * cmpop) (comps : list component) (norm : text_norm)
+                          (lead : nat) (nodes : list node) (d : nat) (spec : sigt) : result :=
+  select rules ops comps (map (shift_node (line_shift norm lead)) nodes) d spec.
+(* the parsed text has the lines of the file *)
+Definition norm_ok (n : text_norm) : bool := match n with NormNone | NormRStrip => true | _ => false end.
+
 (* ---- decidable disciplines of the generated tables ---- *)
 Definition rule_ok (r : rule) : bool :=
   match r with
